@@ -216,7 +216,27 @@ def check_scores(a, info):
     ref = [float(x) for x in window_scores_f32(rows, indices(seq, protein))]
     s = lightmotif.stripe(seq, protein=protein)
     scores = pssm.calculate(s)
-    check_indexing(scores, ref, "StripedScores", info, a["picks"], lambda g, m: g == m or abs(g - m) <= 1e-5 * (1 + abs(m)))
+    # reading the scores must not depend on what was asked of the object before: the reductions named in `pre` are
+    # called first (their answers belong to C17), and once more between the two halves of the check
+    def reduce(names):
+        for name in names:
+            if name == "max":
+                scores.max()
+            elif name == "argmax":
+                scores.argmax()
+            elif name == "thr-lo":
+                scores.threshold(-1e30)
+            else:
+                scores.threshold(min(ref) if ref else 0.0)
+    reduce(a.get("pre", ()))
+    close = lambda g, m: g == m or abs(g - m) <= 1e-5 * (1 + abs(m))
+    check_indexing(scores, ref, "StripedScores", info, a["picks"], close)
+    if a.get("pre") and ref:
+        # every position, not only the picked ones (the last ones of a partly filled column matter)
+        for i in range(len(ref)):
+            if not close(scores[i], ref[i]):
+                raise Violation("StripedScores:index-after-reduction", "after %s: scores[%d] = %r but position %d scores %r (%d scores)" % ("/".join(a["pre"]), i, scores[i], i, ref[i], len(ref)))
+    reduce(a.get("mid", ()))
     v = view_of(scores, "StripedScores")
     n = len(ref)
     r = (len(seq) + 31) // 32 if n else 0
@@ -242,6 +262,8 @@ def check_scores(a, info):
             raise Violation("StripedScores:buffer-shape", "empty scores expose a view of shape %r" % (tuple(v.shape),))
     info.cls("empty", n == 0)
     info.cls("protein" if protein else "dna")
+    info.cls("reduction-before-reading", bool(a.get("pre")) or bool(a.get("mid")))
+    info.cls("last-column-partly-filled", bool(n) and r >= 2 and n % r != 0)
     info.nontrivial = n > 0 and r >= 2
 
 
@@ -322,7 +344,8 @@ def matrix_args(draw):
 @st.composite
 def score_args(draw):
     protein = draw(st.booleans())
-    return {"protein": protein, "seq": draw(sequence_st(protein)), "sites": draw(sites_st(protein, max_w=10)), "picks": draw(picks)}
+    return {"protein": protein, "seq": draw(sequence_st(protein)), "sites": draw(sites_st(protein, max_w=10)), "picks": draw(picks),
+            "pre": draw(st.lists(st.sampled_from(["max", "argmax", "thr-lo", "thr-min"]), max_size=2)), "mid": draw(st.lists(st.sampled_from(["max", "argmax", "thr-lo", "thr-min"]), max_size=1))}
 
 
 SUBS = [
@@ -332,7 +355,7 @@ SUBS = [
         striped_args(), check_striped, 250, 4000),
     Sub("matrices", "CountMatrix / WeightMatrix / ScoringMatrix of a motif created from generated sites (width 0..12, DNA K=5 and protein K=21 where the row stride differs from the column count): len, obj[i] for negative / out-of-range / huge i, row width K, a CountMatrix built from a dict of counts up to 2^32-1 whose elements must be those counts, and the ScoringMatrix float view of shape (positions, symbols) equal to the rows; non-trivial = width >= 2",
         matrix_args(), check_matrices, 250, 4000),
-    Sub("striped-scores", "StripedScores from calculate (incl. L < M = empty): len = L-M+1, obj[i] incl. negatives, float view of shape (32, rows) whose [column][row] element is the score of position column*rows+row; empty scores must expose an empty view (no panic); non-trivial = >= 2 rows",
+    Sub("striped-scores", "StripedScores from calculate (incl. L < M = empty): len = L-M+1, obj[i] incl. negatives, float view of shape (32, rows) whose [column][row] element is the score of position column*rows+row; empty scores must expose an empty view (no panic); in about two thirds of the cases max() / argmax() / threshold() are called on the object before it is indexed (then at every position) or before the view is taken; non-trivial = >= 2 rows",
         score_args(), check_scores, 250, 4000),
     Sub("score-distribution", "ScoringMatrix.score_distribution: 1-D double view of 1000*M+1 non-increasing values in [0,1]; under a uniform or a generated (mostly strand-asymmetric) background; also for a matrix with a history - the reverse complement of a matrix whose own distribution or p-value was (not) asked first - whose view must equal that of an equal matrix built from scratch",
         st.fixed_dictionaries({"sites": sites_st(False, min_n=2, max_n=5, min_w=1, max_w=6), "bg": st.one_of(st.none(), dyadic_background(False)), "history": st.sampled_from(["", "", "r", "dr", "pr", "drr", "rdr"])}), check_distribution, 60, 600),
